@@ -79,6 +79,12 @@ inductive LoopRes where
 def findFrom (searchFrom : Nat) (buf : Bytes) : Option Nat :=
   (headEnd (buf.drop searchFrom)).map (· + searchFrom)
 
+/-- How many bytes the next `Read` is willing to return when `avail` are there (`cuts` is the environment). -/
+def wantOf (cuts : List Nat) (avail : Nat) : Nat :=
+  match cuts with
+  | c :: _ => if c = 0 then avail else c
+  | [] => avail
+
 /-- The read-until-terminator loop of `upgrade` (one turn per `Read`). -/
 def readLoop (P : Params) : Nat → Bytes → Nat → Wire → LoopRes
   | 0, _, _, _ => .fuel
@@ -90,14 +96,17 @@ def readLoop (P : Params) : Nat → Bytes → Nat → Wire → LoopRes
       match w.rest with
       | [] => if w.closed then .eof else .blocked
       | _ :: _ =>
-        let want := match w.cuts with | c :: _ => (if c = 0 then w.rest.length else c) | [] => w.rest.length
-        let n := min want (min (cap - buf.length) w.rest.length)
+        let n := min (wantOf w.cuts w.rest.length) (min (cap - buf.length) w.rest.length)
         let searchFrom := buf.length - 3          -- len - len(headerEnd) + 1, clamped at 0
         let buf' := buf ++ w.rest.take n
         let w' : Wire := { w with rest := w.rest.drop n, cuts := w.cuts.tail }
         match findFrom searchFrom buf' with
         | some resLen => .found resLen buf' cap w'
         | none => readLoop P fuel buf' cap w'
+
+/-- `IsUpgradeRes` (rfc6455.go) -/
+def isUpgradeRes (res : HttpResp) : Bool :=
+  res.status == 101 && (match res.upgrade with | some u => eqFold u "websocket" | none => false)
 
 /-- `upgrade`, after the request has been written.  Returns the new state, the error, and the transport. -/
 def upgrade (P : Params) (s : St) (key : String) (w : Wire) : St × Err × Wire :=
@@ -113,9 +122,8 @@ def upgrade (P : Params) (s : St) (key : String) (w : Wire) : St × Err × Wire 
       | some res =>
           -- leftover bytes go to the read buffer; the handshake buffer is emptied
           let s := { s with src := s.src ++ buf.drop resLen, hbLen := 0, hbCap := cap }
-          if ¬ (res.status = 101 ∧ (match res.upgrade with | some u => eqFold u "websocket" | none => false) = true) then
-            (s, .cannotUpgrade, w')
-          else if res.accept ≠ some (P.acceptOf key) then (s, .cannotUpgrade, w')
+          if isUpgradeRes res = false then (s, .cannotUpgrade, w')                    -- !IsUpgradeRes(res)
+          else if (res.accept == some (P.acceptOf key)) = false then (s, .cannotUpgrade, w')    -- key != expectedKey
           else (s, .nil, w')
 
 /-- `Handshake` / `AsyncHandshake` once the connection is established: `reset`, `dial` (ok), `upgrade`, then either
@@ -129,5 +137,23 @@ def handshake (P : Params) (s : St) (key : String) (w : Wire) : St × Err × Wir
 
 /-- What the frame layer reads after a successful handshake: the read buffer, then the transport. -/
 def frameStream (s : St) (w : Wire) : Bytes := s.src ++ w.rest
+
+/-- What the scripted server checks on the request: the five mandatory headers and the caller's. -/
+def reqWellFormed (hs : List (String × String)) (host key : String) (extra : List (String × String)) : Bool :=
+  hs.contains ("Host", host) && hs.any (fun h => eqFold h.1 "Upgrade" && eqFold h.2 "websocket") &&
+  hs.any (fun h => eqFold h.1 "Connection" && eqFold h.2 "upgrade") &&
+  hs.any (fun h => eqFold h.1 "Sec-WebSocket-Version" && h.2 == "13") &&
+  hs.any (fun h => eqFold h.1 "Sec-WebSocket-Key" && h.2 == key) && extra.all hs.contains
+
+/-- The transport of a scripted handshake. -/
+def wireOf (p : Plan) : Wire := { rest := delivered p, closed := p.closeAt.isSome, cuts := p.cuts }
+
+/-- Everything observable of one scripted handshake, as the model predicts it. -/
+def observe (P : Params) (s : St) (host key : String) (p : Plan) : St × HsObs :=
+  let r := handshake P s key (wireOf p)
+  (r.1, { reqOk := reqWellFormed (requestHeaders host key p.extra) host key p.extra, err := r.2.1, state := r.1.state,
+          pending := r.1.pending, peerClosed := r.2.1 ≠ .nil ∧ ¬ r.1.conn,
+          frame := if r.2.1 = .nil then expectedFrame (frameStream r.1 r.2.2) p.closeAt.isSome else .none,
+          srvExtra := 0 })
 
 end Sonic.Model.WsHandshake
